@@ -1,0 +1,1 @@
+//! Verification hooks (tablets); see `verif/mod.rs`.
